@@ -140,7 +140,7 @@ theorem inRange_removeAt (shape i : List Nat) (ax : Nat) (h : inRange shape i = 
 theorem inRange_setAt (shape i : List Nat) (ax j : Nat) (h : inRange shape i = true)
     (hj : j < shape.getD ax 0) : inRange shape (setAt i ax j) = true := by
   induction shape generalizing ax i with
-  | nil => cases i <;> simp_all [inRange, setAt]
+  | nil => simp at hj
   | cons n ns ih =>
     cases i with
     | nil => simp [inRange] at h
